@@ -203,6 +203,43 @@ func TestC17(t *testing.T) {
 			}
 			c.Ev.MarkExhaustive("min and max, list and array form, over every list of 1-3 values from NaN (two producers), +-Inf, +-0, +-1, 2.5, 1e308")
 		})
+		// no built-in changes what its arguments hold: observers that tell a string from the number it spells,
+		// an exact integer from its nearest double, -0 from 0 and one container from another are printed
+		// before and after the call and must agree (model-free; a call that fails ends the program, which
+		// is fine)
+		c.Sub("arguments-left-unchanged", func(s *Sub) {
+			var k int64
+			obs := P + " a[0] == \"10\"; " + P + " a[0] + a[1]; " + P + " a[2] == ((1 << 62) | 1); " + P + " \"\" + a[2]; " + P + " \"\" + a[3]; " + P + " a[4] == inner; " + P + " " + bn.BLen + "(a); " +
+				P + " o.k + o.m; " + P + " o.n == ((1 << 62) | 1); " + P + " " + bn.BLen + "(" + bn.BKeys + "(o)); " + P + " inner[0] + inner[1]; " + P + " a[5](2);\n"
+			setup := bn.KwFun + " dbl(x) { " + bn.KwReturn + " x * 2; }\n" + bn.KwVar + " inner = [\"7\", \"8\"];\n" + bn.KwVar + " a = [\"10\", \"9\", ((1 << 62) | 1), (-0), inner, dbl];\n" + bn.KwVar + " o = {k: \"10\", m: \"9\", n: ((1 << 62) | 1)};\n" + bn.KwVar + " nums = [\"10\", \"9\", ((1 << 62) | 1), (-0)];\n"
+			obsNums := P + " nums[0] + nums[1]; " + P + " nums[0] == \"10\"; " + P + " \"\" + nums[2]; " + P + " \"\" + nums[3];\n"
+			for _, b := range bn.Builtins {
+				if b == bn.BInput || b == bn.BClock || b == bn.BDelKey {
+					continue // কি_রিমুভ changes its object by definition (C12 covers what exactly)
+				}
+				for _, args := range []string{"a", "nums", "o", "inner", "a, 0", "nums, 1", "a, a", "nums, nums", "o, \"k\"", "a[0]", "nums, \"1\"", "inner, inner[0]", "a[0], a[1]", "o.k, o.m", "1, nums", "a, nums", "nums[0], nums[1], nums[2]", "[nums]", "{z: nums}"} {
+					k++
+					if !c.Mine(k) {
+						continue
+					}
+					src := setup + obs + obsNums + P + " \"call\";\n" + bn.KwVar + " result = " + b + "(" + args + ");\n" + P + " \"returned\";\n" + obs + obsNums
+					r := c.RunB(src, "")
+					c.Ev.EnumCase("arguments-left-unchanged", true, func() string { return src }, "builtin "+b)
+					parts := strings.SplitN(r.Out, "call\n", 2)
+					if len(parts) != 2 {
+						s.Violation(Replay{Check: "purity", Sig: "no-before", Source: src, Note: "the observers before the call did not run", Observed: clip(r.Describe(), 400)})
+						continue
+					}
+					if !strings.HasPrefix(parts[1], "returned\n") {
+						continue // the call failed: nothing afterwards (C06)
+					}
+					if after := strings.TrimPrefix(parts[1], "returned\n"); after != parts[0] {
+						s.Violation(Replay{Check: "purity", Sig: "argument-changed", Source: src, Note: fmt.Sprintf("after %s(%s) the arguments no longer hold what they held before", b, args), Expected: parts[0], Observed: after})
+					}
+				}
+			}
+			c.Ev.MarkExhaustive("14 built-ins x 19 argument lists built from arrays and objects holding numeric-looking strings, an exact 64-bit integer, -0, a nested array and a function")
+		})
 		c.Sub("pow-boundaries", func(s *Sub) {
 			if c.Shard != 0 {
 				return
@@ -235,6 +272,21 @@ func TestC17(t *testing.T) {
 			v, err := strconv.ParseFloat(strings.TrimSpace(r.Out), 64)
 			if r.Class() != "clean" || err != nil || v < float64(before-60) || v > float64(after+60) {
 				s.Violation(Replay{Check: "math", Sig: "clock", Source: P + " " + bn.BClock + "();\n", Note: "ক্লক() does not return the current Unix time in seconds", Expected: fmt.Sprintf("%d..%d", before, after), Observed: r.Describe()})
+			}
+			// "current" means at the moment of the call: a reading taken later inside the same statement, the same
+			// function, the same loop is later.  The program polls until the reading moves (at most 3 000 000 times,
+			// which takes far longer than any clock tick) and must see it move; the harness also brackets the value
+			// read after the wait.  Run through the real executable: no step budget, real time passes.
+			for _, form := range []string{
+				"%s poll() { %s t0 = %s(); %s n = 0; %s (%s() == t0 %s n < 3000000) { n = n + 1; } %s %s() > t0; }\n%s poll();\n",
+				"%s poll() { %s t0 = %s(); %s n = 0; %s (%s() == t0 %s n < 3000000) { n = n + 1; } %s %s() > t0; }\n%s [poll(), poll()][1];\n",
+			} {
+				src := fmt.Sprintf(form, bn.KwFun, bn.KwVar, bn.BClock, bn.KwVar, bn.KwWhile, bn.BClock, bn.KwAnd, bn.KwReturn, bn.BClock, P)
+				cr := c.CLIScript(src, "", 120*time.Second)
+				c.Ev.Case("clock", src, true, "clock-advances")
+				if cr.TimedOut || cr.Status != 0 || strings.TrimSpace(cr.Stdout) != "true" {
+					s.Violation(Replay{Check: "math", Sig: "clock-frozen", Source: src, Note: "ক্লক() read again inside the same statement never moves: it is not the time of the call", Expected: "true", Observed: fmt.Sprintf("status=%d timedOut=%v stdout=%q", cr.Status, cr.TimedOut, clip(cr.Stdout, 100))})
+				}
 			}
 			r2 := c.RunB(P+" "+bn.BClock+"() <= "+bn.BClock+"();\n", "")
 			if strings.TrimSpace(r2.Out) != "true" {
